@@ -10,4 +10,5 @@ for id in "$@"; do
   echo "exit($id)=$rc"
 done
 git -C /repo checkout -- .
+python3 tools/translate.py
 git -C /repo status --short
